@@ -52,6 +52,9 @@ proofs/DecapSpec.vos proofs/DecapSpec.vok proofs/DecapSpec.required_vos: proofs/
 proofs/DecapProps.vo proofs/DecapProps.glob proofs/DecapProps.v.beautified proofs/DecapProps.required_vo: proofs/DecapProps.v gen/Consts.vo model/Base.vo model/Types.vo model/Header.vo model/Ext.vo model/Memory.vo model/Decap.vo proofs/Tactics.vo proofs/BaseLemmas.vo proofs/HeaderLemmas.vo proofs/EncapSpec.vo proofs/MemoryLemmas.vo proofs/DecapBase.vo proofs/DecapSpec.vo
 proofs/DecapProps.vio: proofs/DecapProps.v gen/Consts.vio model/Base.vio model/Types.vio model/Header.vio model/Ext.vio model/Memory.vio model/Decap.vio proofs/Tactics.vio proofs/BaseLemmas.vio proofs/HeaderLemmas.vio proofs/EncapSpec.vio proofs/MemoryLemmas.vio proofs/DecapBase.vio proofs/DecapSpec.vio
 proofs/DecapProps.vos proofs/DecapProps.vok proofs/DecapProps.required_vos: proofs/DecapProps.v gen/Consts.vos model/Base.vos model/Types.vos model/Header.vos model/Ext.vos model/Memory.vos model/Decap.vos proofs/Tactics.vos proofs/BaseLemmas.vos proofs/HeaderLemmas.vos proofs/EncapSpec.vos proofs/MemoryLemmas.vos proofs/DecapBase.vos proofs/DecapSpec.vos
+proofs/Conserve.vo proofs/Conserve.glob proofs/Conserve.v.beautified proofs/Conserve.required_vo: proofs/Conserve.v gen/Consts.vo model/Base.vo model/Types.vo model/Header.vo model/Ext.vo model/Memory.vo model/Decap.vo proofs/Tactics.vo proofs/BaseLemmas.vo proofs/MemoryLemmas.vo proofs/DecapBase.vo proofs/DecapSpec.vo proofs/DecapProps.vo
+proofs/Conserve.vio: proofs/Conserve.v gen/Consts.vio model/Base.vio model/Types.vio model/Header.vio model/Ext.vio model/Memory.vio model/Decap.vio proofs/Tactics.vio proofs/BaseLemmas.vio proofs/MemoryLemmas.vio proofs/DecapBase.vio proofs/DecapSpec.vio proofs/DecapProps.vio
+proofs/Conserve.vos proofs/Conserve.vok proofs/Conserve.required_vos: proofs/Conserve.v gen/Consts.vos model/Base.vos model/Types.vos model/Header.vos model/Ext.vos model/Memory.vos model/Decap.vos proofs/Tactics.vos proofs/BaseLemmas.vos proofs/MemoryLemmas.vos proofs/DecapBase.vos proofs/DecapSpec.vos proofs/DecapProps.vos
 props/C14.vo props/C14.glob props/C14.v.beautified props/C14.required_vo: props/C14.v model/Base.vo model/Types.vo model/Header.vo proofs/HeaderLemmas.vo
 props/C14.vio: props/C14.v model/Base.vio model/Types.vio model/Header.vio proofs/HeaderLemmas.vio
 props/C14.vos props/C14.vok props/C14.required_vos: props/C14.v model/Base.vos model/Types.vos model/Header.vos proofs/HeaderLemmas.vos
@@ -79,6 +82,9 @@ props/C17.vos props/C17.vok props/C17.required_vos: props/C17.v model/Base.vos m
 props/C05.vo props/C05.glob props/C05.v.beautified props/C05.required_vo: props/C05.v model/Base.vo model/Types.vo model/Ext.vo model/Memory.vo model/Decap.vo proofs/Tactics.vo proofs/BaseLemmas.vo proofs/MemoryLemmas.vo proofs/DecapSpec.vo proofs/DecapProps.vo
 props/C05.vio: props/C05.v model/Base.vio model/Types.vio model/Ext.vio model/Memory.vio model/Decap.vio proofs/Tactics.vio proofs/BaseLemmas.vio proofs/MemoryLemmas.vio proofs/DecapSpec.vio proofs/DecapProps.vio
 props/C05.vos props/C05.vok props/C05.required_vos: props/C05.v model/Base.vos model/Types.vos model/Ext.vos model/Memory.vos model/Decap.vos proofs/Tactics.vos proofs/BaseLemmas.vos proofs/MemoryLemmas.vos proofs/DecapSpec.vos proofs/DecapProps.vos
+props/C08.vo props/C08.glob props/C08.v.beautified props/C08.required_vo: props/C08.v model/Base.vo model/Types.vo model/Ext.vo model/Memory.vo model/Decap.vo proofs/Tactics.vo proofs/BaseLemmas.vo proofs/MemoryLemmas.vo proofs/DecapSpec.vo proofs/DecapProps.vo proofs/Conserve.vo
+props/C08.vio: props/C08.v model/Base.vio model/Types.vio model/Ext.vio model/Memory.vio model/Decap.vio proofs/Tactics.vio proofs/BaseLemmas.vio proofs/MemoryLemmas.vio proofs/DecapSpec.vio proofs/DecapProps.vio proofs/Conserve.vio
+props/C08.vos props/C08.vok props/C08.required_vos: props/C08.v model/Base.vos model/Types.vos model/Ext.vos model/Memory.vos model/Decap.vos proofs/Tactics.vos proofs/BaseLemmas.vos proofs/MemoryLemmas.vos proofs/DecapSpec.vos proofs/DecapProps.vos proofs/Conserve.vos
 model/Crc.vo model/Crc.glob model/Crc.v.beautified model/Crc.required_vo: model/Crc.v gen/Consts.vo gen/CrcTable.vo model/Base.vo
 model/Crc.vio: model/Crc.v gen/Consts.vio gen/CrcTable.vio model/Base.vio
 model/Crc.vos model/Crc.vok model/Crc.required_vos: model/Crc.v gen/Consts.vos gen/CrcTable.vos model/Base.vos
